@@ -467,6 +467,18 @@ theorem model_follows_source_order :
       refToIdxBySource A shape roundOut check pts = refToIdx A shape roundOut check pts) :=
   ⟨fun src tgt tol mode => match_follows src tgt tol mode, v2v_follows, refToIdx_follows⟩
 
+/-- **The entry points hold no state.**  The model represents a transformer, a volume and a geometry
+as *values* and `__call__`, `map_reference_to_indices`, `map_indices_to_reference`, `geometry_equal`,
+`match_geometry` as functions of their arguments: an answer cannot depend on earlier calls on the same
+object.  This is justified by what is regenerated from the AST on every run (TC09h): the list of writes
+each of these methods performs on its own object — `self.x = …`, `self.x[…] = …`, augmented
+assignments, deletions, in-place mutator calls and `out=` arguments rooted at `self` — is empty.  A
+method that starts to keep a workspace, a cache or a counter on `self` makes this proof fail (and the
+correspondence then runs histories of calls on one object against fresh objects). -/
+theorem entry_points_hold_no_state :
+    v2vCallSelfWrites = [] ∧ refIdxSelfWrites = [] ∧ idxRefSelfWrites = [] ∧ geqSelfWrites = [] ∧ mgSelfWrites = [] := by
+  decide
+
 /-! ## Non-vacuity: the hypotheses are satisfiable by concrete non-trivial inputs -/
 
 /-- a 2×3×4 source: axis 0 along x, axis 1 along y (spacing 1/2), axis 2 along z (spacing 2);
